@@ -286,6 +286,8 @@ def rexpr(e, inputs=None):
         if inputs is None:
             return input_literal(e[1])
         v = inputs[e[1]]
+        if v == -(1 << 31):
+            return "(-2147483647 - 1)"      # there is no int literal for i32::MIN
         return str(v) if v >= 0 else "-%d" % -v
     if k == "bool":
         return "true" if e[1] else "false"
